@@ -119,6 +119,15 @@ Min(S) == CHOOSE x \in S : \A y \in S : x <= y
 \* the field a member key is routed to: the first non-skipped field, in declaration order, with that effective key; 0 = unknown
 Route(N, vi, k) == LET S == {fi \in ActiveFields(N, vi) : EffKey(N, vi, fi) = k} IN IF S = {} THEN 0 ELSE Min(S)
 
+\* the effective keys of a struct-like node are computed once per frame (the string functions above are costly in TLC)
+KeysOf(N, vi) == [fi \in 1..Len(FieldsOfNode(N, vi)) |-> EffKey(N, vi, fi)]
+RouteK(N, vi, keys, k) == LET S == {fi \in ActiveFields(N, vi) : keys[fi] = k} IN IF S = {} THEN 0 ELSE Min(S)
+RECURSIVE AcceptedKFrom(_, _, _, _)
+AcceptedKFrom(N, vi, keys, fi) ==
+    IF fi > Len(keys) THEN <<>>
+    ELSE (IF FieldsOfNode(N, vi)[fi].skip THEN <<>> ELSE <<keys[fi]>>) \o AcceptedKFrom(N, vi, keys, fi + 1)
+AcceptedK(N, vi, keys) == AcceptedKFrom(N, vi, keys, 1)
+
 \* std's FromStr on a string, as logged by the harness for the current payload
 ParseKey(pk, ty, k) ==
     IF ty = "String" THEN [z |-> "some", v |-> k]
@@ -162,7 +171,8 @@ AdmissibleSeq(name) == \* only used as a set
 
 StructPend(N, vi, val, skipj) ==
     LET members == {j \in 1..Len(val.e) : j # skipj}
-        routed(j) == Route(N, vi, val.e[j].k)
+        keys == KeysOf(N, vi)
+        routed(j) == RouteK(N, vi, keys, val.e[j].k)
     IN {Ob("entry", j) : j \in {m \in members : routed(m) > 0 \/ N.deny # ""}}
        \cup {Ob("missing", fi) : fi \in {f \in ActiveFields(N, vi) : FieldsOfNode(N, vi)[f].dflt = "none"
                                                                   /\ ~\E m \in members : routed(m) = f}}
@@ -231,7 +241,8 @@ Frame(n, loc, val, ob, ety, cl) ==
     [n |-> n, loc |-> loc, val |-> val, ob |-> ob, ety |-> ety, ph |-> cl.ph, pend |-> cl.pend, vi |-> cl.vi, det |-> cl.det,
      eloc |-> cl.eloc, okv |-> cl.okv, since |-> {}, brk |-> FALSE, fail |-> FALSE, res |-> <<>>, hand |-> <<>>,
      rogue |-> FALSE, parsed |-> <<>>,
-     fnp |-> NoFn, mapped |-> {}, mres |-> <<>>, vst |-> "none", fv |-> UnitRV, phb |-> cl.ph]
+     fnp |-> NoFn, mapped |-> {}, mres |-> <<>>, vst |-> "none", fv |-> UnitRV, phb |-> cl.ph,
+     fkeys |-> IF Nodes[n].c \in {"struct", "enum"} THEN KeysOf(Nodes[n], cl.vi) ELSE <<>>]
 
 (* ------------------------- children of a frame -------------------------- *)
 IsStructLike(N) == N.c \in {"struct", "enum"}
@@ -246,7 +257,7 @@ Child(F, ob) ==
       [] ob.o = "entry" ->
             LET m == F.val.e[ob.i] IN
             IF IsMapTarget(N) THEN [has |-> TRUE, n |-> N.kids[1], loc |-> Append(F.loc, KeyStep(m.k)), val |-> m.v, ety |-> F.ety]
-            ELSE LET fi == Route(N, F.vi, m.k) IN
+            ELSE LET fi == RouteK(N, F.vi, F.fkeys, m.k) IN
                  IF fi = 0 THEN [has |-> FALSE, n |-> 0, loc |-> F.loc, val |-> NullV, ety |-> F.ety]
                  ELSE [has |-> TRUE, n |-> FieldsOfNode(N, F.vi)[fi].node, loc |-> Append(F.loc, KeyStep(m.k)), val |-> m.v,
                        ety |-> FieldsOfNode(N, F.vi)[fi].ety]
@@ -277,7 +288,7 @@ HasRes(F, ob) == \E j \in 1..Len(F.res) : F.res[j].ob = ob
 
 UnmappedFieldValue(F, N, fi) ==
     \* set of admissible values of field fi before `map`: the value of a member routed to it (after from / try_from), else its default
-    LET ms == {j \in 1..Len(F.val.e) : HasRes(F, Ob("entry", j)) /\ Route(N, F.vi, F.val.e[j].k) = fi} IN
+    LET ms == {j \in 1..Len(F.val.e) : HasRes(F, Ob("entry", j)) /\ RouteK(N, F.vi, F.fkeys, F.val.e[j].k) = fi} IN
     IF ms = {} THEN {FieldsOfNode(N, F.vi)[fi].dval} ELSE {ResOf(F, Ob("entry", j)) : j \in ms}
 FieldValue(F, N, fi) ==
     \* ... and after `map`: what the function returned
@@ -321,15 +332,15 @@ StartOf(F, ob, pk) ==
             ELSE IF ch.has
                  THEN {Ev("enter", ch.n, ch.loc, ob, NoDet, "", TRUE, UnitRV, <<>>, ch.ety)}
                  ELSE IF N.deny = "fn"
-                 THEN {EvCall(N.denyfn, "deny", ob, <<StrRV(m.k), StrsRV(Accepted(N, F.vi)), LocRV(F.loc)>>, "exact", 0, F.loc, F.ety)}
-                 ELSE {Ev("err", 0, F.loc, ob, Det("unknownkey", NullV, Accepted(N, F.vi), "", m.k, "", 0, ""), a, TRUE, UnitRV, <<>>, F.ety) : a \in Answers}
+                 THEN {EvCall(N.denyfn, "deny", ob, <<StrRV(m.k), StrsRV(AcceptedK(N, F.vi, F.fkeys)), LocRV(F.loc)>>, "exact", 0, F.loc, F.ety)}
+                 ELSE {Ev("err", 0, F.loc, ob, Det("unknownkey", NullV, AcceptedK(N, F.vi, F.fkeys), "", m.k, "", 0, ""), a, TRUE, UnitRV, <<>>, F.ety) : a \in Answers}
       [] ob.o = "handover" ->
             \* a child's error is handed to this frame's error type at the child's own position (any time before the frame returns)
             {Ev("mrg", 0, F.hand[ob.i].loc, ob, NoDet, a, TRUE, UnitRV, F.hand[ob.i].ids, F.ety) : a \in Answers}
       [] ob.o = "missing" ->
             IF FieldsOfNode(N, F.vi)[ob.i].missfn # ""
-            THEN {EvCall(FieldsOfNode(N, F.vi)[ob.i].missfn, "missing", ob, <<StrRV(EffKey(N, F.vi, ob.i)), LocRV(F.loc)>>, "exact", 0, F.loc, F.ety)}
-            ELSE {Ev("err", 0, F.loc, ob, Det("missing", NullV, {}, EffKey(N, F.vi, ob.i), "", "", 0, ""), a, TRUE, UnitRV, <<>>, F.ety) : a \in Answers}
+            THEN {EvCall(FieldsOfNode(N, F.vi)[ob.i].missfn, "missing", ob, <<StrRV(F.fkeys[ob.i]), LocRV(F.loc)>>, "exact", 0, F.loc, F.ety)}
+            ELSE {Ev("err", 0, F.loc, ob, Det("missing", NullV, {}, F.fkeys[ob.i], "", "", 0, ""), a, TRUE, UnitRV, <<>>, F.ety) : a \in Answers}
       [] OTHER -> {}
 
 PassThrough(N) == N.c \in {"opt", "box"}
@@ -410,7 +421,7 @@ AfterExit(stack, ok, v, ids) ==
     LET F == Top(stack) rest == Pop(stack) IN
     IF Len(rest) = 0 THEN rest
     ELSE LET P == Top(rest) PN == Nodes[P.n]
-             fi == IF IsStructLike(PN) /\ F.ob.o = "entry" THEN Route(PN, P.vi, P.val.e[F.ob.i].k) ELSE 0
+             fi == IF IsStructLike(PN) /\ F.ob.o = "entry" THEN RouteK(PN, P.vi, P.fkeys, P.val.e[F.ob.i].k) ELSE 0
              fld == IF fi > 0 THEN FieldsOfNode(PN, P.vi)[fi] ELSE [frm |-> "none", fn |-> "", ety |-> "E"]
          IN
          SetTop(rest,
@@ -496,16 +507,16 @@ Faults(n, val, loc, pk, fnf) ==
                                        ELSE <<Desc("unexpected", loc, "", 0, NullV, {})>>
                                   ELSE IF ch.has
                                        THEN LET inner == Faults(ch.n, ch.val, ch.loc, pk, fnf)
-                                                fld == FieldsOfNode(N, cl.vi)[Route(N, cl.vi, val.e[ob.i].k)]
+                                                fld == FieldsOfNode(N, cl.vi)[RouteK(N, cl.vi, F.fkeys, val.e[ob.i].k)]
                                             IN IF inner # <<>> THEN inner
                                                \* a conversion only runs on a good intermediate value; its failure is one report at the field
                                                ELSE IF fld.frm = "try" /\ [f |-> fld.fn, loc |-> ch.loc, j |-> ob.i] \in fnf THEN <<FnDesc(fld.fn, ch.loc)>>
                                                ELSE <<>>
                                        ELSE IF N.deny = "fn" THEN <<FnDesc(N.denyfn, loc)>>
-                                       ELSE <<Desc("unknownkey", loc, val.e[ob.i].k, 0, NullV, SeqToSet(Accepted(N, cl.vi)))>>
+                                       ELSE <<Desc("unknownkey", loc, val.e[ob.i].k, 0, NullV, SeqToSet(AcceptedK(N, cl.vi, F.fkeys)))>>
                             [] ob.o = "missing" ->
                                   IF FieldsOfNode(N, cl.vi)[ob.i].missfn # "" THEN <<FnDesc(FieldsOfNode(N, cl.vi)[ob.i].missfn, loc)>>
-                                  ELSE <<Desc("missing", loc, EffKey(N, cl.vi, ob.i), 0, NullV, {})>>
+                                  ELSE <<Desc("missing", loc, F.fkeys[ob.i], 0, NullV, {})>>
                             [] OTHER -> <<>>
                       order == SetToSeqByRank(cl.pend)
                   IN Flatten([j \in 1..Len(order) |-> one(order[j])])
